@@ -279,18 +279,20 @@ func (dt DateTime) getComponents() []int {
 // roundToDateTimePrecision rounds the duration down to the appropriate precision.
 // Eg. 2012-03-20T + 23 'hours' = 2012-03-20T but 2012-03-20T + 24 'hours' = 2012-03-21T.
 func roundToDateTimePrecision(p dateTimePrecision, d time.Duration) time.Duration {
+	var unit time.Duration
 	switch p {
 	case dtYear:
-		return d / (time.Hour * 24 * 365)
+		unit = time.Hour * 24 * 365
 	case dtMonth:
-		return d / (time.Hour * 24 * 30)
+		unit = time.Hour * 24 * 30
 	case dtDay:
-		return d / (time.Hour * 24)
+		unit = time.Hour * 24
 	case dtHour:
-		return d / time.Hour
+		unit = time.Hour
 	case dtMinute:
-		return d / time.Minute
+		unit = time.Minute
 	default:
 		return d
 	}
+	return d / unit * unit
 }
